@@ -139,6 +139,7 @@ class C04(SeqProp):
         u = super().universe(rng, contents, store_alg)
         u.pids = ["p", "pq", "q", "r"]
         u.toks = u.toks[1:3]          # two contents, so pids share objects
+        u.add_shard_mate(u.toks[0])   # ... and a third one filed next to the first (same shard directories)
         return u
 
     def history(self, u, n):
@@ -197,6 +198,7 @@ class C06(SeqProp):
     def universe(self, rng, contents, store_alg):
         u = super().universe(rng, contents, store_alg)
         u.toks = u.toks[:3]
+        u.add_shard_mate(u.toks[1])
         return u
 
     def owned(self, call, s, ctx):
@@ -223,6 +225,7 @@ class C11(SeqProp):
         u = super().universe(rng, contents, store_alg)
         u.pids = ["ab", "a", "p", "pq"]
         u.formats = [None, u.ns, "f1", "f2", "", "c", "bc", "a b"]
+        u.add_pid_mate("p")             # a pid filed next to "p" (same shard directories under metadata/ and refs/pids/)
         return u
 
     def owned(self, call, s, ctx):
@@ -263,6 +266,9 @@ ADVERSARIAL = [
     "x" * 5000, "y" * 4999 + "/", "\u00e9" * 1500, "\u6f22" * 700 + "-A", "\u6f22" * 700 + "-B", "\U0001F600" * 400,
     "z" * 1023 + "\u00e9", "z" * 1024 + "\u00e9" + "tail", "w" * 2048, "a=b", "a:b", "#frag", "?q=1", "http://x/y?z#w", "_delete", "p_delete",
 ]
+# distinct strings that some normalisation would identify (canonical / compatibility equivalence, case folding)
+EQUIVALENT_PAIRS = [("caf\u00e9", "cafe\u0301"), ("\uac00", "\u1100\u1161"), ("\u212b", "\u00c5"), ("\ufb01x", "fix"),
+                    ("stra\u00dfe", "strasse"), ("\u01c4", "D\u017d"), ("\u0387", "\u00b7"), ("a\u0323\u0307", "a\u0307\u0323")]
 REJECTED_IDS = ["a b", "a\tb", "a\nb", "a\rb", "\x85x", "x\xa0", "\u1680", "a\u2028b", "a\u3000", "\x1c", " lead", "trail "]
 
 
@@ -282,6 +288,13 @@ class C18(SeqProp):
         u.pids = base + [root + "x", "x" + root, root.upper(), root.lower(), rng.choice(REJECTED_IDS)]
         u.toks = u.toks[:3]
         u.formats = [None, u.ns] + rng.sample(ADVERSARIAL, 3) + [rng.choice(REJECTED_IDS), ""]
+        a, b = rng.choice(EQUIVALENT_PAIRS)
+        if rng.random() < 0.5:
+            a, b = b, a
+        u.pids = u.pids[:2] + [a, b] + u.pids[4:]
+        u.pattern_pids = [a, b]           # the scripted life cycles run on the pair
+        if rng.random() < 0.5:
+            u.formats += [a, b]
         return u
 
     def weights(self):
